@@ -206,7 +206,9 @@ existence tests, path `=`/`!=` string literal, path *op* number literal, `not()`
 nesting, the predicates may be `count(P) op n` / `n op count(P)`, `contains`/`starts-with`/
 `ends-with` of a string literal, `local-name()`, `local-name(P)` or a path `P` against a literal,
 `local-name() =`/`!=` `'lit'`, `local-name(P) =`/`!=` `'lit'`, and the filtered path may be
-parenthesised (`(P)[b]`).  After the repairs of `notFunc` and of `containsFunc`/`startwithFunc`/
+parenthesised (`(P)[b]`); a predicate may also compare two paths (`P op Q`, all six operators, any two
+paths of the fragment — see `C02_path_vs_path`) or a path with a string literal on either side with
+any of the six operators (after the repairs of `cmpStringStringF` / `cmpNodeSetString`).  After the repairs of `notFunc` and of `containsFunc`/`startwithFunc`/
 `endwithFunc` the fragment also holds `not(count(P))` (`not` of a number) and the string tests with
 a flat path in *second* position: `contains(P, Q)`, `contains('lit', Q)` ….  A path used as a *function argument* must be flat (child/attribute/self
 steps with any fragment predicates): the engine hands a function its result *sequence* (length,
@@ -274,6 +276,77 @@ theorem C02_keeps_exactly_the_true_ones_full_unconditional {d : Doc} (wf : WF d)
       (∀ x, x ∈ ns ↔ x ∈ ns0 ∧ holds (F := F) d b x = true) :=
   C02_keeps_exactly_the_true_ones_full wf cfg hns (PathSem.hashInj_holds wf hattr cfg) regexOk limit
     p b hp hb st0 st o0 o hb0 hb1 c hc
+
+open XPathV.PathSem XPathV.PredSem XPathV.PredSem2 in
+/-- **C02 for a path compared with a path, all six operators**: `p[P op Q]` (`//a[b = c]`,
+`//a[@x != ../@y]`, `//a[b < c/d]`) with `p`, `P`, `Q` arbitrary paths of `Frag2` (all twelve axes,
+any fragment predicates, no flatness requirement).  The built plan of `p[P op Q]` keeps a candidate
+`x` of the built plan of `p` if and only if the oracle's `boolean(P op Q)` is true at `x` (`holds`),
+and what it returns is the oracle's node-set of `p[P op Q]`.  The last conjunct spells
+`boolean(P op Q)` out: at every candidate both paths evaluate to node-sets, and the comparison is
+true iff some node of `P` and some node of `Q` have equal (`=`) / different (`!=`) string-values, or
+— for `<`, `<=`, `>`, `>=` — string-values whose numbers compare.
+
+Derived from `C02_keeps_exactly_the_true_ones_full`.  (First stated for `=`/`!=` only: the engine
+compared the string-values byte-wise for the relational operators — `<b>10</b>` against `<c>9</c>`
+satisfied `b < c`.  `cmpStringStringF` was repaired; instance: `NonVacuity.C02.C02_path_lt_path_instance`.) -/
+theorem C02_path_vs_path {d : Doc} (wf : WF d) (cfg : ECfg) (hns : cfg.nsIface = true)
+    (hinj : HashInj d cfg) (regexOk : RegexOk) (limit : Nat) (op : String) (hop : op ∈ cmpOps)
+    (p P Q : Ast) (hp : Frag2 true p) (hP : Frag2 true P) (hQ : Frag2 true Q)
+    (st0 st : BState) (o0 o : BOut)
+    (hb0 : build regexOk limit true false p {} st0 = .ok o0)
+    (hb1 : build regexOk limit true false (.filter p (.oper op P Q)) {} st = .ok o)
+    (c : Ref) (hc : validRef d c = true) :
+    ∃ out0 out ns g,
+      sel (F := F) d cfg o0.q c = .ok out0 ∧
+      sel (F := F) d cfg o.q c = .ok out ∧
+      Spec.eval (F := F) d (.filter p (.oper op P Q)) ⟨c, 1, 1⟩ = .ok (.val (.nodes ns) g) ∧
+      (∀ x, x ∈ refs out ↔ x ∈ ns) ∧
+      (∀ x, x ∈ refs out ↔ x ∈ refs out0 ∧ holds (F := F) d (.oper op P Q) x = true) ∧
+      (∀ x, x ∈ refs out0 →
+        ∃ nsP gP nsQ gQ, Spec.eval (F := F) d P ⟨x, 1, 1⟩ = .ok (.val (.nodes nsP) gP) ∧
+          Spec.eval (F := F) d Q ⟨x, 1, 1⟩ = .ok (.val (.nodes nsQ) gQ) ∧
+          (holds (F := F) d (.oper op P Q) x = true ↔
+            ∃ u ∈ nsP, ∃ v ∈ nsQ, (op = "=" ∧ stringValue d u = stringValue d v) ∨
+              (op = "!=" ∧ stringValue d u ≠ stringValue d v) ∨
+              (∃ cop, Spec.CmpOp.ofString op = some cop ∧ cop.isRel = true ∧
+                Spec.cmpNum cop (Spec.strToNum (F := F) (stringValue d u))
+                  (Spec.strToNum (F := F) (stringValue d v)) = true))) := by
+  obtain ⟨out0, ns0, g0, out, ns, g, h1, h2, h3, h4, h5, h6, h7, _⟩ :=
+    C02_keeps_exactly_the_true_ones_full (F := F) wf cfg hns hinj regexOk limit p (.oper op P Q) hp
+      (.cmpPath op P Q hop hP hQ) st0 st o0 o hb0 hb1 c hc
+  refine ⟨out0, out, ns, g, h1, h4, h5, h6, h7, fun x hx => ?_⟩
+  obtain ⟨_, ns0', _, _, he, _, hv⟩ := C02_naive2 (F := F) wf cfg hns hinj p hp c hc
+  rw [h2] at he; cases he
+  exact holds_cmpPath (F := F) wf cfg hns hinj op hop P Q hP hQ x (hv x ((h3 x).1 hx))
+
+open XPathV.PathSem XPathV.PredSem XPathV.PredSem2 in
+/-- `C02_path_vs_path` without the `HashInj` hypothesis (it is a theorem now: `hashInj_holds`; the side
+condition left is "no element has two attributes with the same prefix, name and value") -/
+theorem C02_path_vs_path_unconditional {d : Doc} (wf : WF d) (cfg : ECfg) (hns : cfg.nsIface = true)
+    (hattr : AttrTriplesDistinct d) (regexOk : RegexOk) (limit : Nat) (op : String) (hop : op ∈ cmpOps)
+    (p P Q : Ast) (hp : Frag2 true p) (hP : Frag2 true P) (hQ : Frag2 true Q)
+    (st0 st : BState) (o0 o : BOut)
+    (hb0 : build regexOk limit true false p {} st0 = .ok o0)
+    (hb1 : build regexOk limit true false (.filter p (.oper op P Q)) {} st = .ok o)
+    (c : Ref) (hc : validRef d c = true) :
+    ∃ out0 out ns g,
+      sel (F := F) d cfg o0.q c = .ok out0 ∧
+      sel (F := F) d cfg o.q c = .ok out ∧
+      Spec.eval (F := F) d (.filter p (.oper op P Q)) ⟨c, 1, 1⟩ = .ok (.val (.nodes ns) g) ∧
+      (∀ x, x ∈ refs out ↔ x ∈ ns) ∧
+      (∀ x, x ∈ refs out ↔ x ∈ refs out0 ∧ holds (F := F) d (.oper op P Q) x = true) ∧
+      (∀ x, x ∈ refs out0 →
+        ∃ nsP gP nsQ gQ, Spec.eval (F := F) d P ⟨x, 1, 1⟩ = .ok (.val (.nodes nsP) gP) ∧
+          Spec.eval (F := F) d Q ⟨x, 1, 1⟩ = .ok (.val (.nodes nsQ) gQ) ∧
+          (holds (F := F) d (.oper op P Q) x = true ↔
+            ∃ u ∈ nsP, ∃ v ∈ nsQ, (op = "=" ∧ stringValue d u = stringValue d v) ∨
+              (op = "!=" ∧ stringValue d u ≠ stringValue d v) ∨
+              (∃ cop, Spec.CmpOp.ofString op = some cop ∧ cop.isRel = true ∧
+                Spec.cmpNum cop (Spec.strToNum (F := F) (stringValue d u))
+                  (Spec.strToNum (F := F) (stringValue d v)) = true))) :=
+  C02_path_vs_path wf cfg hns (PathSem.hashInj_holds wf hattr cfg) regexOk limit op hop p P Q hp hP hQ
+    st0 st o0 o hb0 hb1 c hc
 
 open XPathV.PathSem XPathV.PredSem XPathV.PredSem2 in
 /-- the truth of a built predicate never depends on the context position/size and is never a
@@ -363,3 +436,7 @@ theorem evaluate_restarts_all_iterators_any_predicate {F : Type} [NumAlg F] (d :
 end AnyPredicate
 
 end XPathV.Theorems.C02
+
+/-! ## Axiom audit (path compared with a path) -/
+section AxiomAudit
+end AxiomAudit
